@@ -1,10 +1,157 @@
-/* placeholder: in-memory file layer (filled in with the files engine) */
+/* In-memory file layer behind --wrap=fopen,fclose (+ pass-through guards on the stdio
+ * calls File.c makes).  Streams are real glibc FILE objects created by fopencookie, so
+ * buffering, fseek/ftell/feof, vfprintf/vfscanf run unmodified; only the backing store
+ * and the faults are simulated.  Faults are armed per operation by the files engine. */
 #define _GNU_SOURCE
 #include "sim.h"
+#include "vfs.h"
 #include <stdio.h>
+#include <stdlib.h>
+#include <string.h>
+#include <errno.h>
+#include <sys/types.h>
+
 FILE* __real_fopen(const char*, const char*);
 int   __real_fclose(FILE*);
+size_t __real_fread(void*, size_t, size_t, FILE*);
+size_t __real_fwrite(const void*, size_t, size_t, FILE*);
+int   __real_fseek(FILE*, long, int);
+long  __real_ftell(FILE*);
+int   __real_fflush(FILE*);
+int   __real_feof(FILE*);
+int   __real_vfprintf(FILE*, const char*, va_list);
+int   __real_vfscanf(FILE*, const char*, va_list);
+
 struct VfsStats vfs_stats;
-void vfs_reset(void) {}
-FILE* __wrap_fopen(const char* path, const char* mode) { return __real_fopen(path, mode); }
-int   __wrap_fclose(FILE* f) { return __real_fclose(f); }
+int vfs_active;
+
+typedef struct { char name[32]; unsigned char* data; size_t size; int exists; int opens; } MFile;
+typedef struct { FILE* fp; int file; size_t pos; int append, canread, canwrite; int state; /* 0 free 1 open 2 closed */ int closes; } Stream;
+
+static MFile   MF[VFS_NFILES];
+static Stream  ST[VFS_NSTREAMS];
+static int     g_nst;
+
+/* armed fault: the k-th matching callback from now fails */
+static int g_fault_kind, g_fault_countdown, g_fault_fired;
+void vfs_arm(int kind, int k) { g_fault_kind = kind; g_fault_countdown = k < 1 ? 1 : k; g_fault_fired = 0; }
+int  vfs_disarm(void) { int f = g_fault_fired; g_fault_kind = 0; g_fault_countdown = 0; g_fault_fired = 0; return f; }
+
+static int fire(int kind) {
+  if (g_fault_kind != kind) return 0;
+  if (--g_fault_countdown > 0) return 0;
+  g_fault_kind = 0; g_fault_fired = 1; vfs_stats.faults_fired++;
+  return 1;
+}
+
+void vfs_reset(void) {
+  memset(&vfs_stats, 0, sizeof vfs_stats);
+  for (int i = 0; i < VFS_NFILES; i++) { if (!MF[i].data) MF[i].data = harness_alloc(VFS_FILECAP); MF[i].size = 0; MF[i].exists = 0; MF[i].opens = 0; snprintf(MF[i].name, sizeof MF[i].name, "vfs%d.bin", i); }
+  memset(ST, 0, sizeof ST); g_nst = 0;
+  vfs_active = 1;
+}
+const char* vfs_name(int i) { return MF[i % VFS_NFILES].name; }
+size_t vfs_size(int i) { return MF[i % VFS_NFILES].size; }
+const unsigned char* vfs_data(int i) { return MF[i % VFS_NFILES].data; }
+int vfs_exists(int i) { return MF[i % VFS_NFILES].exists; }
+int vfs_open_streams(void) { int n = 0; for (int i = 0; i < g_nst; i++) n += ST[i].state == 1; return n; }
+
+static Stream* find_stream(FILE* fp) {
+  for (int i = g_nst - 1; i >= 0; i--) if (ST[i].fp == fp) return &ST[i];
+  return NULL;
+}
+
+static ssize_t ck_read(void* c, char* buf, size_t n) {
+  Stream* s = c; MFile* f = &MF[s->file];
+  vfs_stats.reads++;
+  if (fire(VFS_F_READ_ERR)) { errno = EIO; return -1; }
+  size_t avail = s->pos < f->size ? f->size - s->pos : 0;
+  if (n > avail) n = avail;
+  if (n > 1 && fire(VFS_F_SHORT_READ)) n = 1 + n / 3;       /* legal: stdio refills */
+  memcpy(buf, f->data + s->pos, n);
+  s->pos += n;
+  return (ssize_t)n;
+}
+static ssize_t ck_write(void* c, const char* buf, size_t n) {
+  Stream* s = c; MFile* f = &MF[s->file];
+  vfs_stats.writes++;
+  if (fire(VFS_F_WRITE_EIO)) { errno = EIO; return 0; }
+  if (fire(VFS_F_WRITE_ENOSPC)) { errno = ENOSPC; return 0; }
+  if (s->append) s->pos = f->size;
+  if (s->pos + n > VFS_FILECAP) { errno = ENOSPC; return 0; }
+  if (s->pos > f->size) memset(f->data + f->size, 0, s->pos - f->size);
+  memcpy(f->data + s->pos, buf, n);
+  s->pos += n;
+  if (s->pos > f->size) f->size = s->pos;
+  return (ssize_t)n;
+}
+static int ck_seek(void* c, off64_t* off, int whence) {
+  Stream* s = c; MFile* f = &MF[s->file];
+  vfs_stats.seeks++;
+  if (fire(VFS_F_SEEK_ERR)) { errno = EIO; return -1; }
+  off64_t base = whence == SEEK_SET ? 0 : whence == SEEK_CUR ? (off64_t)s->pos : (off64_t)f->size;
+  off64_t np = base + *off;
+  if (np < 0) { errno = EINVAL; return -1; }
+  s->pos = (size_t)np;
+  *off = np;
+  return 0;
+}
+static int ck_close(void* c) { (void)c; return 0; }
+
+FILE* __wrap_fopen(const char* path, const char* mode) {
+  if (!vfs_active) return __real_fopen(path, mode);
+  int idx = -1;
+  for (int i = 0; i < VFS_NFILES; i++) if (!strcmp(MF[i].name, path)) idx = i;
+  if (idx < 0) return __real_fopen(path, mode);
+  vfs_stats.opens++;
+  if (fire(VFS_F_FOPEN_FAIL)) { vfs_stats.opens--; errno = EMFILE; return NULL; }
+  MFile* f = &MF[idx];
+  int plus = strchr(mode, '+') != NULL;
+  if (g_nst >= VFS_NSTREAMS) { vfs_stats.opens--; errno = EMFILE; return NULL; }
+  Stream* s = &ST[g_nst];
+  memset(s, 0, sizeof *s);
+  s->file = idx;
+  switch (mode[0]) {
+    case 'r': if (!f->exists) { vfs_stats.opens--; errno = ENOENT; return NULL; } s->canread = 1; s->canwrite = plus; break;
+    case 'w': f->exists = 1; f->size = 0; s->canwrite = 1; s->canread = plus; break;
+    case 'a': f->exists = 1; s->append = 1; s->canwrite = 1; s->canread = plus; s->pos = f->size; break;
+    default: vfs_stats.opens--; errno = EINVAL; return NULL;
+  }
+  cookie_io_functions_t io = { ck_read, ck_write, ck_seek, ck_close };
+  FILE* fp = fopencookie(s, mode, io);
+  if (!fp) { vfs_stats.opens--; return NULL; }
+  s->fp = fp; s->state = 1;
+  g_nst++; f->opens++;
+  return fp;
+}
+
+int __wrap_fclose(FILE* fp) {
+  if (!vfs_active) return __real_fclose(fp);
+  if (fp == NULL) { vfs_stats.null_closes++; errno = EBADF; return EOF; }       /* recorded, not executed */
+  Stream* s = find_stream(fp);
+  if (!s) { vfs_stats.foreign_closes++; return (fp == stdin || fp == stdout || fp == stderr) ? EOF : __real_fclose(fp); }
+  if (s->state == 2) { vfs_stats.double_closes++; errno = EBADF; return EOF; }  /* recorded, not executed */
+  s->state = 2; s->closes++;
+  vfs_stats.closes++;
+  MF[s->file].opens--;
+  int fail = fire(VFS_F_FCLOSE_FAIL);
+  int rc = __real_fclose(fp);          /* flushes through the cookie; the stream is gone afterwards either way */
+  if (fail) { errno = EIO; return EOF; }
+  return rc;
+}
+
+/* guards: a stream the layer knows to be closed must never reach stdio again */
+static int stale(FILE* fp, const char* what) {
+  if (!vfs_active || !fp) return 0;
+  Stream* s = find_stream(fp);
+  if (s && s->state == 2) { vfs_stats.use_after_close++; (void)what; return 1; }
+  return 0;
+}
+size_t __wrap_fread(void* p, size_t a, size_t b, FILE* f) { if (vfs_active && !f) { vfs_stats.null_uses++; return 0; } if (stale(f, "fread")) return 0; return __real_fread(p, a, b, f); }
+size_t __wrap_fwrite(const void* p, size_t a, size_t b, FILE* f) { if (vfs_active && !f) { vfs_stats.null_uses++; return 0; } if (stale(f, "fwrite")) return 0; return __real_fwrite(p, a, b, f); }
+int  __wrap_fseek(FILE* f, long o, int w) { if (vfs_active && !f) { vfs_stats.null_uses++; return -1; } if (stale(f, "fseek")) return -1; return __real_fseek(f, o, w); }
+long __wrap_ftell(FILE* f) { if (vfs_active && !f) { vfs_stats.null_uses++; return -1; } if (stale(f, "ftell")) return -1; return __real_ftell(f); }
+int  __wrap_fflush(FILE* f) { if (stale(f, "fflush")) return EOF; return __real_fflush(f); }
+int  __wrap_feof(FILE* f) { if (vfs_active && !f) { vfs_stats.null_uses++; return 1; } if (stale(f, "feof")) return 1; return __real_feof(f); }
+int  __wrap_vfprintf(FILE* f, const char* fmt, va_list va) { if (vfs_active && !f) { vfs_stats.null_uses++; return -1; } if (stale(f, "vfprintf")) return -1; return __real_vfprintf(f, fmt, va); }
+int  __wrap_vfscanf(FILE* f, const char* fmt, va_list va) { if (vfs_active && !f) { vfs_stats.null_uses++; return -1; } if (stale(f, "vfscanf")) return -1; return __real_vfscanf(f, fmt, va); }
